@@ -292,6 +292,10 @@ impl<'a> Ref<'a> {
         Ok(())
     }
 
+    pub fn enc_elem_pub(&self, elem: &Elem, v: &Value, out: &mut Vec<u8>, lay: &mut Vec<Chunk>, ev: &mut Events) -> Result<(), EncErr> {
+        self.enc_elem(elem, v, "", 0, out, lay, ev)
+    }
+
     fn enc_array(&self, f: &FF, obj: &Map<String, Value>, base: usize, ev: &mut Events) -> Result<(Vec<u8>, Vec<Chunk>, Vec<usize>), EncErr> {
         let FK::Array { id, elem, count, .. } = &f.k else { unreachable!() };
         let Some(items) = obj.get(id).and_then(|v| v.as_array()) else { return bad(format!("array {id}")) };
@@ -605,6 +609,7 @@ impl<'a> Ref<'a> {
                 Some(TyKind::Custom(Some(w))) => {
                     let n = w as usize / 8;
                     if b.len() < n {
+                        ev.insert("truncated@custom".into());
                         return Err(DecErr::Length);
                     }
                     Ok((json!(self.bytes_int(&b[..n])), n))
